@@ -200,12 +200,32 @@ pub fn spec(id: &str) -> Option<Spec> {
             real: vec!["virtio_drivers::device::socket::{VsockConnectionManager, VirtIOSocket}", "OwningQueue, VirtQueue"],
             stubbed: vec!["device + peers: reference vsock device and connection-table model", "platform: SimHal"],
         },
+        "C08" => Spec {
+            id: "C08",
+            level: "exploration",
+            rule: "grid of 11 drivers x 8 transport kinds (model, model-legacy, model-PCI-like, real MMIO modern/legacy, SomeTransport::Mmio, real PCI, SomeTransport::Pci) visited in every round; offered feature set drawn per run (0, all ones, single bits, VERSION_1 only, random 64-bit, random biased to bits 0-40); ordered seam log of construction checked, then a usage script judged by the reference device for the negotiated features; non-trivial = construction and usage succeeded",
+            batches: vec![grid("handshake", scen::c08::run, scen::c08::GRID, 60, 1500)],
+            extras: vec![],
+            assumptions: vec!["HypPciTransport (x86-64 hypercalls) cannot run in user space and is excluded", "legacy transports never offer VERSION_1"],
+            real: vec!["every driver's new(), Transport::begin_init/finish_init", "MmioTransport, PciTransport, SomeTransport", "VirtQueue"],
+            stubbed: vec!["devices: reference personalities per driver", "platform: SimHal"],
+        },
+        "C09" => Spec {
+            id: "C09",
+            level: "fault_enumeration",
+            rule: "fault enumeration: grid of 11 drivers x 8 transport kinds x k = 1..14 where the k-th DMA allocation of construction + usage script (incl. GPU framebuffer and cursor setup) fails, every cell visited in every round (k beyond the number of allocations = fault-free run); plus seeded drop-at-a-random-point histories with requests outstanding on every transport kind, and construction failing on malformed configuration space; non-trivial = the injected failure was reached and reported (grid) / the history ran and the driver was dropped (drop) / construction failed (bad config)",
+            batches: vec![grid("alloc_fail", scen::c09::alloc_fail, scen::c09::GRID, 3, 40), b("drop_anywhere", scen::c09::drop_anywhere, 6000, 150_000), b("bad_config", scen::c09::bad_config, 2000, 50_000)],
+            extras: vec![],
+            assumptions: vec!["a device reset includes the reset every in-tree transport performs in its own Drop", "HypPciTransport excluded", "heap watch covers up to 256 posted buffers at a time"],
+            real: vec!["every driver's new() and Drop, Dma::new/Drop, VirtQueue::new, OwningQueue::new/Drop", "MmioTransport / PciTransport / SomeTransport Drop (device reset)"],
+            stubbed: vec!["devices: reference personalities per driver", "platform: SimHal with failure injection and release monitors", "process heap: global allocator wrapper (sim/src/heapwatch.rs)"],
+        },
         _ => return None,
     };
     Some(s)
 }
 
-pub const ALL: &[&str] = &["C01", "C02", "C03", "C04", "C05", "C06", "C10", "C14", "C15", "C16", "C17", "C18", "C19", "C20"];
+pub const ALL: &[&str] = &["C01", "C02", "C03", "C04", "C05", "C06", "C08", "C09", "C10", "C14", "C15", "C16", "C17", "C18", "C19", "C20"];
 
 pub fn find_batch(prop: &str, batch: &str) -> Option<fn()> {
     spec(prop)?.batches.iter().find(|b| b.name == batch).map(|b| b.f)
